@@ -67,8 +67,10 @@ def explore(pid: str, cfg_name: str, tier: str, seed: int) -> Dict[str, Any]:
     monitors = plan.pop("monitors")
     pre = plan.pop("pre", None)
     plan.pop("post_terminal", None)
+    max_states = plan.pop("max_states", cfg.max_states(tier))
+    plan.pop("time_budget_s", None)
     ex = Explorer(env, f"{cfg_name}@horizon", pid, roots=(t_concat(roots_s), t_concat(roots_ts)), root_desc=descs,
-                  monitors=monitors, max_depth=3, max_states=cfg.max_states(tier), seed=seed, ctor=cfg.ctor,
+                  monitors=monitors, max_depth=3, max_states=max_states, seed=seed, ctor=cfg.ctor,
                   eager_budget_s=4.0, eager_max_paths=2, **plan)
     ex.injected_roots = True
     res = ex.run()
